@@ -53,6 +53,19 @@ def operand_text(e) -> str:
     return t if not t.startswith("(") else "0 + " + t
 
 
+def ips_file(recs) -> list[int]:
+    """the bytes of an IPS file with these records (rle: a run-length record; data then holds the repeated byte)"""
+    out = list(b"PATCH")
+    for r in recs:
+        out += [(r["off"] >> 16) & 0xFF, (r["off"] >> 8) & 0xFF, r["off"] & 0xFF]
+        n = len(r["data"])
+        if r.get("rle"):
+            out += [0, 0, n >> 8, n & 0xFF, r["data"][0]]
+        else:
+            out += [n >> 8, n & 0xFF] + list(r["data"])
+    return out + list(b"EOF")
+
+
 def render_stmts(stmts, files, ind=0) -> list[str]:
     pad = "    " * ind
     out = []
@@ -81,6 +94,9 @@ def render_stmts(stmts, files, ind=0) -> list[str]:
         elif k == "incbin":
             files[s["file"]] = {"bytes": s["bs"]}
             out.append(f"{pad}.incbin '{s['file']}'")
+        elif k == "ips":
+            files[s["file"]] = {"bytes": ips_file(s["recs"])}
+            out.append(f"{pad}.include_ips '{s['file']}', {rexpr(s['delta'])}")
         elif k == "stareq":
             out.append(f"{pad}*={rexpr(s['e'])}")
         elif k == "ateq":
@@ -165,7 +181,7 @@ class Gen:
     statically visible there (so every reference is definite by construction)."""
 
     def __init__(self, rnd: random.Random, rom: str = "low", macros: bool = True, moves: bool = True, maxdepth: int = 3,
-                 size: int = 14):
+                 size: int = 14, ips: bool = True):
         self.rnd = rnd
         self.rom = rom
         self.n = 0
@@ -176,6 +192,7 @@ class Gen:
         self.macro_defs: list[dict] = []
         self.consts: list[str] = []      # unique := names defined so far at top level (T0/T1-safe)
         self.files = 0
+        self.ips_on = ips
         self.tables_on = rnd.random() < 0.35
 
     def fresh(self, p):
@@ -261,6 +278,17 @@ class Gen:
                 out.append({"k": "assign", "n": n, "e": num(r.choice([0, 1, 0x10, 0xFF, 0x100, 0x1234, 0xFFFF, 0x10000, 0x7E1234]))})
                 if toplevel and in_macro is None:
                     self.consts.append(n)
+            elif x < 0.715 and self.ips_on and in_macro is None:
+                self.files += 1
+                recs = []
+                for j in range(r.randint(1, 3)):
+                    n = r.choice([1, 2, 5])
+                    rle = r.random() < 0.3
+                    data = [r.choice([0, 0x55, 0xFF])] * n if rle else [(self.files * 17 + j * 5 + m) % 256 for m in range(n)]
+                    recs.append({"off": 0x300000 + self.files * 0x400 + j * 0x10 + r.choice([0, 0, 3]), "data": data, "rle": rle})
+                cands = [c for c in self.consts]
+                delta = ident(r.choice(cands)) if cands and r.random() < 0.3 else num(r.choice([0, 0, 0x200, -0x200, 0x10000, -0x300000]))
+                out.append({"k": "ips", "file": f"p{self.files}.ips", "recs": recs, "delta": delta})
             elif x < 0.74:
                 out.append({"k": "ascii", "s": [ord(c) for c in r.choice(["A", "hello", "SNES rom", "0123456789abcdef"])]})
             elif x < 0.78 and in_macro is None:
